@@ -6,6 +6,8 @@ def run(cx):
     E.exc_discipline(cx, E.BEADS)
     E.exc_discipline(cx, E.SAMPLES)
     E.fault_table(cx)
+    from . import gate_rules
+    gate_rules.fraction_refusal(cx, 'EXC')      # the source of the gate-fraction fault
     E.units_dispatch(cx)
     E.loop_independence(cx, E.BEADS)
     E.loop_independence(cx, E.SAMPLES)
